@@ -423,7 +423,7 @@ def r14_7(ctx):
         for n in ast.walk(g.node):
             if isinstance(n, ast.Call) and isinstance(n.func, ast.Attribute) and n.func.attr == "limit_denominator":
                 a = n.args[0] if n.args else None
-                v = 10 ** 6 if a is None else _const(ctx, g, a)
+                v = 10 ** 6 if a is None else _cap_value(ctx, g, a, seen)
                 caps.append((q, n, v))
     # the search itself, and the private helpers a later change may have cut it into
     from verifkit.known_names import KNOWN
@@ -474,6 +474,37 @@ def r14_7(ctx):
         else:
             out.ok(host.qname, f"{name}: tolerance {tol} >= 1/{N}^2", where=host.where(n))
     return out
+
+
+def _cap_value(ctx, g, a, scope, depth=0):
+    """the smallest value a denominator cap can take: a constant, a local bound to constants only, or a parameter of a
+    helper whose every call site (in the functions of the search) hands in such a value"""
+    from verifkit import pat
+    v = _const(ctx, g, a)
+    if v is not None or not isinstance(a, ast.Name) or depth > 3:
+        return v
+    defs = [d for d in pat.local_defs(g).get(a.id, [])]
+    if defs:
+        vals = [None if isinstance(d, tuple) else _cap_value(ctx, g, d, scope, depth + 1) for d in defs]
+        return min(vals) if all(x is not None for x in vals) else None
+    ps = [x.arg for x in g.node.args.posonlyargs + g.node.args.args]
+    if a.id not in ps:
+        return None
+    idx = ps.index(a.id)
+    vals = []
+    for q in sorted(scope):
+        h = ctx.model.funcs[q]
+        hinf = ctx.inf(q)
+        for n in ast.walk(h.node):
+            if isinstance(n, ast.Call) and any(t.qname == g.qname for t in hinf.targets(n, ("call",))):
+                off = 1 if ps and ps[0] in ("self", "cls") and isinstance(n.func, ast.Attribute) else 0
+                e = n.args[idx - off] if 0 <= idx - off < len(n.args) else next(
+                    (k.value for k in n.keywords if k.arg == a.id), None)
+                if e is None:
+                    nd = len(g.node.args.defaults)
+                    e = g.node.args.defaults[idx - (len(ps) - nd)] if idx >= len(ps) - nd else None
+                vals.append(None if e is None else _cap_value(ctx, h, e, scope, depth + 1))
+    return min(vals) if vals and all(x is not None for x in vals) else None
 
 
 def _const(ctx, fn, e):
@@ -581,6 +612,12 @@ def r14_10(ctx):
     bx_, by_ = b0.at(Fr(2, 3))
     moved = [(x + ax_ - bx_, y + ay_ - by_) for x, y in bowl]
     cases.append(("two quadratic arcs with A(1/3) = B(2/3)", arc, moved, Fr(1, 3), Fr(2, 3)))
+    # two parabola arcs crossing twice; the second crossing is reached only from start pairs at which the Hessian of the
+    # squared distance is indefinite (negative determinant of the Newton system)
+    arcs2 = ([(Fr(0), Fr(-3)), (Fr(2), Fr(3)), (Fr(-2), Fr(-3))], [(Fr(-3), Fr(-4)), (Fr(2), Fr(4)), (Fr(0), Fr(-4))])
+    cases.append(("two parabola arcs (0,-3),(2,3),(-2,-3) and (-3,-4),(2,4),(0,-4), crossing near (0.197, 0.762)",
+                  arcs2[0], arcs2[1], 0.197, 0.762))
+    cases.append(("the same two arcs, crossing near (0.554, 0.547)", arcs2[0], arcs2[1], 0.554, 0.547))
     for label, pa, pb, ustar, vstar in cases:
         for kind in ("exact", "float"):
             if kind == "float":
@@ -600,7 +637,13 @@ def r14_10(ctx):
                 continue
             finally:
                 Ev.BUDGET = saved
-            near = [q for q in got if abs(float(q[0]) - float(ustar)) < 1e-3 and abs(float(q[1]) - float(vstar)) < 1e-3]
+            tolq = 1e-3 if isinstance(ustar, Fr) else 2e-2           # the last two cases give the crossing to three digits
+            near = [q for q in got if abs(float(q[0]) - float(ustar)) < tolq and abs(float(q[1]) - float(vstar)) < tolq]
+            if not isinstance(ustar, Fr):
+                def gap(q):
+                    (x1, y1), (x2, y2) = ca.at(q[0]), cb.at(q[1])
+                    return float((x1 - x2) ** 2 + (y1 - y2) ** 2) ** 0.5
+                near = [q for q in near if gap(q) < 1e-4]
             outside = [q for q in got if not (0 <= q[0] <= 1 and 0 <= q[1] <= 1)]
             if outside:
                 out.bad(fn.qname, "the search returns parameters outside [0, 1]^2", where=fn.where(),
